@@ -109,9 +109,12 @@ func (r *refKV) apply(args []string, now int64) string {
 		return "$" + e.s
 	case "APPEND":
 		switch {
-		case unknown || (e != nil && e.isNum):
+		case unknown:
 			r.m[k] = &kvEntry{unknown: true}
 			return ""
+		case e != nil && e.isNum:
+			// a plain store has no kinds of value: the counter's decimal text is appended to
+			e.s, e.isNum, e.n = strconv.FormatInt(e.n, 10)+args[2], false, 0
 		case e == nil:
 			r.m[k] = &kvEntry{s: args[2]}
 		default:
@@ -143,9 +146,16 @@ func (r *refKV) apply(args []string, now int64) string {
 			d = -d
 		}
 		switch {
-		case unknown || (e != nil && !e.isNum):
+		case unknown:
 			r.m[k] = &kvEntry{unknown: true}
 			return ""
+		case e != nil && !e.isNum:
+			// a plain store counts on the decimal text of the value and refuses anything else with an error
+			v, err := strconv.ParseInt(e.s, 10, 64)
+			if err != nil {
+				return "-"
+			}
+			e.s, e.isNum, e.n = "", true, v+d
 		case e == nil:
 			r.m[k] = &kvEntry{isNum: true, n: d}
 		default:
@@ -186,11 +196,19 @@ func c15TextAlphabet() []wStep {
 			wStep{Text: []string{"SETNX", k, "z"}}, wStep{Text: []string{"GETSET", k, "w"}}, wStep{Text: []string{"APPEND", k, "pq"}},
 			wStep{Text: []string{"EXISTS", k}}, wStep{Text: []string{"STRLEN", k}})
 	}
-	a = append(a, wStep{Text: []string{"INCR", "n"}}, wStep{Text: []string{"DECR", "n"}}, wStep{Text: []string{"INCRBY", "n", "5"}}, wStep{Text: []string{"DECRBY", "n", "7"}}, wStep{Text: []string{"INCRBY", "n", "0"}}, wStep{Text: []string{"EXISTS", "n"}},
+	a = append(a, wStep{Text: []string{"SET", "a", "10"}}, wStep{Text: []string{"APPEND", "n", "x"}}, wStep{Text: []string{"INCR", "n"}}, wStep{Text: []string{"DECR", "n"}}, wStep{Text: []string{"INCRBY", "n", "5"}}, wStep{Text: []string{"DECRBY", "n", "7"}}, wStep{Text: []string{"INCRBY", "n", "0"}}, wStep{Text: []string{"EXISTS", "n"}},
 		wStep{Text: []string{"GET", "n"}}, wStep{Text: []string{"DEL", "n"}}, wStep{Text: []string{"INCR", "a"}},
 		wStep{Text: []string{"EXPIRE", "a", "2"}}, wStep{Text: []string{"PERSIST", "a"}}, wStep{Text: []string{"SET", "b", "v", "EX", "2"}},
 		wStep{Tick: 1 * sec}, wStep{Tick: 5 * sec})
 	return a
+}
+
+// c15Same: the expected reply "-" stands for any error reply
+func c15Same(want, got string) bool {
+	if want == "-" {
+		return strings.HasPrefix(got, "-")
+	}
+	return want == got
 }
 
 type c15TextArg struct {
@@ -310,6 +328,10 @@ func evalC15Text(c *Ctx, cs EnumCase) EnumResult {
 						e.nx = false
 					}
 				}
+				if (kind == "string" && (cmd == "INCR" || cmd == "DECR" || cmd == "INCRBY" || cmd == "DECRBY") || kind == "number" && cmd == "APPEND") && !c15Same(w, reply) {
+					// slock keeps numbers and byte strings apart: from here on the key is outside what a plain store defines
+					ref.m[k] = &kvEntry{wild: true}
+				}
 				if cmd == "SETNX" && w == "" && kind == "unknown" && reply == ":1" {
 					ref.m[k] = &kvEntry{s: st.Text[2], nx: true} // the old key had expired: SETNX created it
 				}
@@ -331,7 +353,7 @@ func evalC15Text(c *Ctx, cs EnumCase) EnumResult {
 		}
 		distinct[strings.Join(got, "|")] = true
 		for i := range want {
-			if want[i] != "" && i < len(got) && want[i] != got[i] {
+			if want[i] != "" && i < len(got) && !c15Same(want[i], got[i]) {
 				sig := "C15:text-kv-differs/" + class[i]
 				vs = append(vs, explore.Violation{Sig: sig, Msg: fmt.Sprintf("sequence %v: command %d answered %q, a plain key-value store answers %q (all replies %v)", names, i+1, got[i], want[i], got)})
 				if c.IsKnown(sig) == nil {
